@@ -23,8 +23,37 @@ E = mon.events
 HOT_AFTER = frozenset(["STORE_SUBSCR", "STORE_ATTR", "STORE_GLOBAL", "STORE_DEREF", "DELETE_SUBSCR", "CALL", "CALL_FUNCTION_EX", "UNPACK_SEQUENCE", "STORE_SLICE", "BINARY_SUBSCR"])
 
 
-def yarl_code_objects(stage_prefix):
-    """All code objects defined in the staged yarl .py files."""
+def callback_classes():
+    """Classes whose *instances* the workload passes into yarl and whose Python-level methods compiled code
+    (the quoter, multidict) or yarl itself calls back: Enum members, user mappings, mapping views.  Only
+    instance-level behaviour -- no metaclasses, no module-level helpers (those run during class creation and
+    imports, i.e. under real locks this scheduler does not model)."""
+    import _collections_abc as cabc
+    import collections
+    import enum
+
+    return [enum.Enum, enum.property, types.DynamicClassAttribute, collections.UserDict, collections.ChainMap,
+            cabc.Mapping, cabc.MutableMapping, cabc.MappingView, cabc.ItemsView, cabc.KeysView, cabc.ValuesView]
+
+
+def holding_import_lock():
+    """True if the calling thread is in the middle of an import (owns a module lock): it must not be parked
+    there, another simulated thread needing the same module would block for real while holding the baton."""
+    try:
+        from importlib import _bootstrap as b
+
+        tid = threading.get_ident()
+        for ref in list(b._module_locks.values()):
+            lock = ref()
+            if lock is not None and getattr(lock, "owner", None) == tid:
+                return True
+    except Exception:  # noqa
+        return False
+    return False
+
+
+def yarl_code_objects(stage_prefix, foreign=None):
+    """All code objects defined in the staged yarl .py files, plus caller-side callback code (collected in `foreign`)."""
     out = {}
 
     def add_code(c):
@@ -63,6 +92,23 @@ def yarl_code_objects(stage_prefix):
                 continue
             for v in list(vars(m).values()):
                 add_obj(v)
+    # caller-side callbacks: compiled code (the quoter, multidict) calls back into Python for arguments
+    # that are Enum members, user mappings, ... -- the only places a thread switch can land *inside* a
+    # compiled call, so their code is a pre-emption point like yarl's own
+
+    def add_foreign(c):
+        if isinstance(c, types.CodeType) and c not in out:
+            out[c] = True
+            if foreign is not None:
+                foreign.add(c)
+            for k in c.co_consts:
+                add_foreign(k)
+
+    for cls in callback_classes():
+        for w in list(vars(cls).values()):
+            for f in (w, getattr(w, "__func__", None), getattr(w, "fget", None)):
+                if isinstance(f, types.FunctionType):
+                    add_foreign(f.__code__)
     return list(out)
 
 
@@ -107,6 +153,9 @@ class Sched:
         self.first = None
         self.parked = [None] * nthreads  # (code name, offset, self-id) where a thread is parked mid-op
         self.in_op = [False] * nthreads
+        self.in_call = [False] * nthreads  # inside the call into yarl proper (not building arguments / rendering results)
+        self.in_sched = [False] * nthreads
+        self.foreign = set()  # caller-side callback code: a pre-emption point only while in_call
         self.probes = {}
         self.edges = set()
         self.gran = knobs.get("granularity", "ins")
@@ -162,6 +211,19 @@ class Sched:
         me = self.ident.get(threading.get_ident())
         if me is None or me != self.current:
             return None
+        if code in self.foreign:
+            # caller-side callback code: a pre-emption point only during the call into yarl, and never
+            # while this thread is inside the scheduler / a monitor (which use the same stdlib modules)
+            if not self.in_call[me] or self.in_sched[me] or holding_import_lock():
+                return None
+            self.probes["steps_in_caller_side_callbacks"] = self.probes.get("steps_in_caller_side_callbacks", 0) + 1
+        self.in_sched[me] = True
+        try:
+            return self._on_event(me, code, off)
+        finally:
+            self.in_sched[me] = False
+
+    def _on_event(self, me, code, off):
         ls = self.local[me] = self.local[me] + 1
         s = self.step = self.step + 1
         if self.fine is not None:
@@ -282,12 +344,17 @@ class Sched:
         self.parked[me] = None
         self.stall_mark[me] = None
 
+    def call_hook(self, flag):
+        me = self.ident.get(threading.get_ident())
+        if me is not None:
+            self.in_call[me] = flag
+
     # -- thread lifecycle -----------------------------------------------------------------
     def install(self):
         ev = E.INSTRUCTION if self.gran == "ins" else E.LINE
         mon.use_tool_id(TOOL, "yarl-dsim")
         mon.register_callback(TOOL, ev, self.on_event)
-        self.codes = yarl_code_objects(self.stage_prefix)
+        self.codes = yarl_code_objects(self.stage_prefix, self.foreign)
         for c in self.codes:
             mon.set_local_events(TOOL, c, ev)
         sys._yarlsim_gil_hook = self.on_gil
@@ -365,6 +432,10 @@ class Sched:
         self.batons[first].release()
         ok = self.main_sem.acquire(timeout=timeout)
         if not ok:
+            if os.environ.get("VERIF_DEBUG_HANG"):
+                import faulthandler
+
+                faulthandler.dump_traceback(file=sys.stderr, all_threads=True)
             return False
         for th in threads:
             th.join(timeout=5)
